@@ -43,6 +43,8 @@ pub struct Dim {
     pub internal: bool,
     pub mode: Mode,
     pub det_field: u32,
+    /// internal triggers, except the first trigger of every PhT HBF, which is a physics trigger
+    pub mixed: bool,
 }
 
 impl Dim {
@@ -55,6 +57,7 @@ impl Dim {
         c.data_format = self.fmt;
         c.rdh_version = self.version;
         c.internal = self.internal;
+        c.physics_first_on_pht = self.mixed;
         c.detector_field = self.det_field;
         c.triggers = vec![grammar::TRG_SOC_HB_TF, grammar::TRG_PHT];
         c.rdh_bcs = vec![0, 1];
@@ -270,10 +273,16 @@ fn dims(tier: Tier) -> Vec<Dim> {
                             continue;
                         }
                         let det_field = if internal { 0 } else { 0x0700_0FFF & !0x00FF_F000 };
-                        v.push(Dim { barrel, fmt, version, internal, mode, det_field });
+                        v.push(Dim { barrel, fmt, version, internal, mode, det_field, mixed: false });
                     }
                 }
             }
+        }
+    }
+    // mixed trigger histories (internal triggers with a physics trigger opening every second HBF)
+    for barrel in [0u8, 2] {
+        for mode in [Mode::SanityIts, Mode::AllIts, Mode::AllStave] {
+            v.push(Dim { barrel, fmt: 2, version: 7, internal: true, mode, det_field: 0, mixed: true });
         }
     }
     v
